@@ -10,6 +10,7 @@ import (
 
 	"golang.org/x/tools/go/callgraph"
 	"golang.org/x/tools/go/ssa"
+	"golang.org/x/tools/go/types/typeutil"
 
 	"verif/checker/eng"
 )
@@ -754,4 +755,103 @@ func callerAttrsCopied(c *cx, id string) {
 		}
 	}
 	c.r.Floor(id, "in-place attribute writes in SendIQ/SendMessage/SendPresence", n, 3)
+}
+
+// pageTurnClosesFirst (E-res ordering, C09.22/C06.17): an iterator over a
+// response keeps the serve loop parked until it is closed. A method of a type
+// that holds such an iterator in a field (a value with Next and Close methods)
+// starts a new correlated request - a call from which one of the session's
+// wait APIs is reachable - only after that field's Close was called on every
+// path: fetching the next page first waits for a reply that the parked serve
+// loop cannot deliver (the caller, Serve and the peer all block forever).
+func pageTurnClosesFirst(c *cx, id string) {
+	s := c.p.SSA()
+	// functions from which a wait API is reachable (not across go statements)
+	reaches := map[*ssa.Function]bool{}
+	var work []*ssa.Function
+	for fn := range s.Graph.Nodes {
+		if f := s.FnOfSSA(fn); f != nil && isWaitAPI(f.Short) {
+			reaches[fn] = true
+			work = append(work, fn)
+		}
+	}
+	for len(work) > 0 {
+		fn := work[len(work)-1]
+		work = work[:len(work)-1]
+		for _, e := range s.Graph.Nodes[fn].In {
+			if _, isGo := e.Site.(*ssa.Go); isGo {
+				continue
+			}
+			if !s.InRepo(e.Caller.Func) || reaches[e.Caller.Func] {
+				continue
+			}
+			reaches[e.Caller.Func] = true
+			work = append(work, e.Caller.Func)
+		}
+	}
+	n := 0
+	for _, f := range c.allFns() {
+		if f.Body == nil || f.Obj == nil || f.Sig() == nil || f.Sig().Recv() == nil || f.Obj.Name() == "Close" {
+			continue
+		}
+		rt := f.Sig().Recv().Type()
+		if p, ok := rt.(*types.Pointer); ok {
+			rt = p.Elem()
+		}
+		st, ok := rt.Underlying().(*types.Struct)
+		if !ok {
+			continue
+		}
+		var iterFields []string
+		for i := 0; i < st.NumFields(); i++ {
+			ft := st.Field(i).Type()
+			ms := types.NewMethodSet(ft)
+			if ms.Lookup(nil, "Close") != nil && ms.Lookup(nil, "Next") != nil && ms.Lookup(nil, "Current") != nil {
+				iterFields = append(iterFields, st.Field(i).Name())
+			}
+		}
+		if len(iterFields) == 0 {
+			continue
+		}
+		g := f.Graph()
+		for _, cl := range f.AllCalls() {
+			fo, isFn := typeutil.Callee(f.Info(), cl).(*types.Func)
+			if !isFn {
+				continue
+			}
+			callee := c.p.FnOf(fo.Origin())
+			if callee == nil {
+				continue
+			}
+			sf := s.FuncOf(callee)
+			if sf == nil || !reaches[sf] {
+				continue
+			}
+			// a recursive call of the method itself starts nothing new by itself
+			if callee == f {
+				continue
+			}
+			pt, okp := g.Where(cl)
+			if !okp {
+				continue
+			}
+			for _, fld := range iterFields {
+				n++
+				isClose := func(q eng.Point, nd ast.Node) bool {
+					found := false
+					ast.Inspect(nd, func(x ast.Node) bool {
+						if cc, ok := x.(*ast.CallExpr); ok {
+							if sel, ok := ast.Unparen(cc.Fun).(*ast.SelectorExpr); ok && sel.Sel.Name == "Close" && f.Norm(sel.X, nil) == "recv."+fld {
+								found = true
+							}
+						}
+						return !found
+					})
+					return found
+				}
+				c.r.Check(id, f, "new request "+callee.Short+" while recv."+fld+" may be open", "E-res (order): a method that holds a response iterator closes it on every path before it starts a request that waits for a reply", cl.Pos(), g.MustPassBefore(g.Entry(), pt, isClose, nil), "the request is sent and waited for while the serve loop is still parked on the open response of recv."+fld+": the reply can never be delivered")
+			}
+		}
+	}
+	c.r.Floor(id, "requests started by methods that hold a response iterator", n, 1)
 }
